@@ -225,3 +225,8 @@ def execute(plan):
 
 def describe(plan):
     return {"format": plan["format"], "listeners": plan["listeners"], "history": [e["f"][:4] + [e["k"]] for e in plan["events"][:25]]}
+
+
+def seam_check():
+    from .common import seam_net, seam_clock, seam_fs
+    return seam_fs()
